@@ -196,3 +196,27 @@ def c11(run):
                              "trees, and Nearest calls; non-trivial = more than 4 items"}
     run.model_check("MC_RTree", cfg=tier_n(run, "MC_RTree.cfg", "MC_RTree_thorough.cfg"), timeout=3000, heap="24g")
     family_random(run, "rtree", "Trace_RTree", tier_n(run, 400, 6000))
+
+FAMILY_MODULE["twkb"] = "Trace_TWKB"
+
+
+def _canary_twkb(e):
+    if e["kind"] != "enc" or e["err"] or len(e["bytes"]) < 4:
+        return None
+    e["bytes"][-1] = (e["bytes"][-1] + 2) % 128
+    return e
+
+
+CANARY["twkb"] = _canary_twkb
+
+
+@prop("C07")
+def c07(run):
+    run.assumptions += ["TLC side bounds |k*10^(p-q)| < 2^27 (the property allows 2^40); larger ordinates are not exercised",
+                        "decimal ties may round either way in binary floating point (both accepted)"]
+    run.extra_cov = {"rule": "random trees of all 7 types x 4 coordinate types, empty members, nested collections, ordinates k/10^q, "
+                             "XY precision -8..7, Z/M precision 0..7, every subset of {size, bbox, closed rings, ids}; plus every "
+                             "encoding written by the specification's writer for the MC_TWKB family; non-trivial = non-empty"}
+    run.model_check("MC_TWKB", timeout=1800)
+    family_enumerated(run, "twkb", "Gen_TWKB", "Trace_TWKB", gen_cfg=tier_n(run, "Gen_TWKB.cfg", "Gen_TWKB_full.cfg"))
+    family_random(run, "twkb", "Trace_TWKB", tier_n(run, 8000, 300000))
